@@ -86,6 +86,9 @@ func (Prop) Run(c *engine.Ctx) {
 				sb = 2
 			}
 		}
+		if quick && sc.name == "S27-system-root-pool" && sb > 2 {
+			sb = 2 // every execution re-runs all package-level initialisers (re-armed Onces): > 20000 schedules at bound 3
+		}
 		if quick && strings.Contains(sc.name, "sm9") && sb > 2 {
 			sb = 2 // an SM9 execution costs 10-20 ms under the race detector (pairings)
 		}
